@@ -70,6 +70,17 @@ type setup struct {
 	// said (nothing validates it): "zero" = unset, "ahead" = far above the head, "behind" = 1000 lower. The key they are
 	// stored under - the proof height - is what the property's height and delay rules speak about.
 	FieldSkew string
+	// ProofRev, when set, is the revision number of the PROOF height (the stored consensus states and the head are in Rev):
+	// no consensus state exists at (ProofRev, Height), so nothing can be proven there
+	ProofRev *uint64
+}
+
+// proofRev is the revision number the proof height is stated in.
+func (s setup) proofRev() uint64 {
+	if s.ProofRev != nil {
+		return *s.ProofRev
+	}
+	return s.Rev
 }
 
 func (s setup) heightField(h uint64) clienttypes.Height {
@@ -159,7 +170,7 @@ func verifyETH(store sdk.KVStore, cs ethtypes.ClientState, rev, height uint64, c
 
 func runETH(s setup, contract []byte, c claim, proof []byte) outcome {
 	store, cs := ethClient(s, contract)
-	return verifyETH(store, cs, s.Rev, s.Height, c, proof)
+	return verifyETH(store, cs, s.proofRev(), s.Height, c, proof)
 }
 
 // bscClient: BSC's delay is len(validators)/2+1, so delay d>=1 is configured with 2(d-1) (+1 if odd) validators.
@@ -209,12 +220,12 @@ func verifyBSC(store sdk.KVStore, cs bsctypes.ClientState, rev, height uint64, c
 
 func runBSC(s setup, odd bool, contract []byte, c claim, proof []byte) outcome {
 	store, cs := bscClient(s, odd, contract)
-	return verifyBSC(store, cs, s.Rev, s.Height, c, proof)
+	return verifyBSC(store, cs, s.proofRev(), s.Height, c, proof)
 }
 
 // gateOK is the reference's height rule: consensus state exists ∧ height ≤ head ∧ head − height ≥ delay.
 func gateOK(s setup) bool {
-	if _, ok := s.Cons[s.Height]; !ok {
+	if _, ok := s.Cons[s.Height]; !ok || s.proofRev() != s.Rev {
 		return false
 	}
 	return s.Height <= s.Head && s.Head-s.Height >= s.Delay
@@ -411,7 +422,7 @@ func pickUniform(t *rapid.T, table []string, label string) string {
 var gateTable = []string{
 	"ok_exact", "ok_exact", "ok_exact", "ok_exact", "ok_more", "ok_more", "ok_more", "ok_more", "ok_far", "ok_far", "ok_far", "ok_far",
 	"ok_exact", "ok_more", "ok_far", "ok_exact",
-	"short_by_one", "at_head", "above_head", "no_consensus_state", "young_chain",
+	"short_by_one", "at_head", "above_head", "no_consensus_state", "young_chain", "other_revision",
 }
 
 // ---- one generated case ------------------------------------------------------------------------
@@ -1112,6 +1123,14 @@ func runCase(t *rapid.T, r *rec.Recorder) {
 		s.Height = s.Head + rapid.Uint64Range(1, minU64(5, math.MaxUint64-s.Head)).Draw(t, "aboveBy")
 	case "no_consensus_state":
 		s.Height = s.Head - s.Delay
+	case "other_revision":
+		// the proof names the right block number in ANOTHER revision (a lower one passes every "not above the head" test)
+		s.Height = s.Head - s.Delay
+		if s.Rev == 0 {
+			s.Rev = rapid.Uint64Range(1, 9).Draw(t, "headRevision")
+		}
+		pr := rapid.SampledFrom([]uint64{0, s.Rev - 1, s.Rev + 1}).Draw(t, "proofRevision")
+		s.ProofRev = &pr
 	case "young_chain":
 		// the counterparty's head is still below the required number of confirmations: no height can be confirmed yet
 		if s.Delay < 2 {
